@@ -793,6 +793,14 @@ class Engine:
             r = self._resolve_fn(callee, nargs, only_prefix=pref)
         if r is None:
             r = self._resolve_fn(callee, nargs)
+        if r is None:
+            # fn item nested inside a method: `Type::method::nested` -> `<impl at ..>::method::nested`
+            c = strip_generics_tail(callee)
+            segs = c.split('::')
+            if len(segs) >= 3 and not c.startswith('<'):
+                outer = self._resolve_fn('::'.join(segs[:-1]), -1) if '::'.join(segs[:-1]) != c else None
+                if outer and (outer + '::' + segs[-1]) in self.fns:
+                    r = outer + '::' + segs[-1]
         self.resolve_cache[key] = r
         return r
 
